@@ -1,0 +1,41 @@
+use crate::key::node::Color;
+use crate::key::pool::Pool;
+use crate::key::tree::KeyExpTree;
+use crate::verif::{VerifSlot, VerifSnapshot};
+use crate::{Expiration, ExpiredKey};
+
+impl<K: Copy, E: Copy, V: Copy> KeyExpTree<K, E, V> {
+    /// Read-only view of the arena; `f` maps a stored (key, value) to what the caller wants to keep.
+    pub fn verif_snapshot<T, F: Fn(&K, &V) -> T>(&self, f: F) -> VerifSnapshot<T> {
+        VerifSnapshot {
+            root: self.root,
+            slots: self
+                .store
+                .buffer
+                .iter()
+                .map(|n| VerifSlot {
+                    parent: n.parent,
+                    left: n.left,
+                    right: n.right,
+                    red: n.color == Color::Red,
+                    payload: f(&n.entity.key, &n.entity.val),
+                })
+                .collect(),
+            free: self.store.unused.clone(),
+            free_capacity: self.store.unused.capacity(),
+        }
+    }
+
+}
+
+impl<K: ExpiredKey<E>, E: Expiration, V: Copy> KeyExpTree<K, E, V> {
+    /// Field-for-field copy. The free list keeps its capacity, which the pool uses as growth step.
+    pub fn verif_clone(&self) -> Self {
+        let mut unused = Vec::with_capacity(self.store.unused.capacity());
+        unused.extend_from_slice(&self.store.unused);
+        let mut copy = Self::new(0);
+        copy.store = Pool { buffer: self.store.buffer.clone(), unused };
+        copy.root = self.root;
+        copy
+    }
+}
